@@ -1,10 +1,18 @@
 (* C05: model of katdal.concatdata.ConcatenatedLazyIndexer (fix-C05 branch) and the spec
    "the same index applied to the concatenation of the parts".
 
-   Parts are LazyIndexers without transforms of their own (each with its own dataset and
+   Parts are LazyIndexers without transforms of their own (each with its own dataset, dtype and
    first-stage selection); the concatenated indexer may carry a transform chain.
    __init__     -> [c_mk]: parts with no data on the first axis are dropped (the first is kept
-                   when all are empty), shapes/dtypes must agree (ConcatenationError otherwise)
+                   when all are empty), tail shapes must agree and the dtypes must be all equal or all
+                   byte strings (then the widest), ConcatenationError otherwise ([c_initial_dtype] =
+                   LazyDType.common_dtype)
+   dtypes       -> every part answers in its own dtype; the result is delivered in _initial_dtype [dt]
+                   (fix-C05r: the integer-sequence buffer is np.empty(..., dtype=self._initial_dtype) and the
+                   other branches end in .astype(self._initial_dtype)).  The model casts every part's answer
+                   to [dt] where it enters the result ([part_get dt], [astype]); np.concatenate's own
+                   promotion of the visited chunks followed by that astype is one such cast per chunk
+                   (both are value-preserving widenings, LazyDType.promote_cast_id / cast_widen).
    __getitem__  -> [c_getitem]: scalar head (normalised, range-checked, routed with
                    find_indexer), slice head (per-part chunk_start with the
                    (start - offset) mod stride phase, chunk_stop = stop - offset, reshape,
@@ -14,7 +22,7 @@
    Python's negative list index on `self.indexers[ind]` (reachable with negative strides) is
    modelled by [py_nth]. *)
 From Coq Require Import ZArith List Bool.
-From KV Require Import Base.Sx Base.PySlice Base.AxisIndex Base.NdArray Model.LazyIdx.
+From KV Require Import Base.Sx Base.PySlice Base.AxisIndex Base.NdArray Base.LazyDType Model.LazyIdx.
 Import ListNotations.
 Open Scope Z_scope.
 
@@ -41,11 +49,8 @@ Definition c_initial_shape (ps : list cpart) : res (list Z) :=
   | p :: r => if forallb (fun q => list_eqb (part_tail q) (part_tail p)) r
               then Ok (zsum (map part_len ps) :: part_tail p) else Err
   end.
-Definition c_initial_dtype (ps : list cpart) : res Z :=
-  match ps with
-  | [] => Err
-  | p :: r => if forallb (fun q => li_dtype0 (cp_li q) =? li_dtype0 (cp_li p)) r then Ok (li_dtype0 (cp_li p)) else Err
-  end.
+Definition part_dtype (p : cpart) : Z := li_dtype0 (cp_li p).
+Definition c_initial_dtype (ps : list cpart) : res Z := common_dtype (map part_dtype ps).
 
 Definition c_shape (c : concat) : res (list Z) :=
   init <- c_initial_shape (c_parts c) ;;
@@ -90,7 +95,13 @@ Definition concat_chunks (dt : Z) (shape_tails : list Z) (chunks : list arr) : r
                               (cat (map (fun x => nd_body (a_nd x)) chunks))))
   end.
 
-Definition part_get (p : cpart) (ixs : list aidx) : res arr := getitem (cp_li p) (cp_ds p) ixs.
+(* x.astype(dt) / assignment of x into an array of dtype dt *)
+Definition astype (dt : Z) (x : arr) : arr :=
+  mk_arr dt (mk_nd (nd_shape (a_nd x)) (tree_map (cast_val (a_dtype x) dt) (nd_body (a_nd x)))).
+
+(* the answer of one part (in its own dtype) and the same as it enters the result of dtype [dt] *)
+Definition part_get0 (p : cpart) (ixs : list aidx) : res arr := getitem (cp_li p) (cp_ds p) ixs.
+Definition part_get (dt : Z) (p : cpart) (ixs : list aidx) : res arr := sub <- part_get0 p ixs ;; Ok (astype dt sub).
 
 Definition zslice {A} (l : list A) (a b : Z) : list A := firstn (Z.to_nat (b - a)) (skipn (Z.to_nat a) l).
 
@@ -108,30 +119,30 @@ Fixpoint scatter (out : list (option tree)) (inds : list Z) (ind : Z) (rows : li
   | _, _ => Err
   end.
 
-Fixpoint scatter_parts (ps : list cpart) (ind : Z) (starts : list Z) (head : list Z) (inds : list Z)
+Fixpoint scatter_parts (dt : Z) (ps : list cpart) (ind : Z) (starts : list Z) (head : list Z) (inds : list Z)
          (tail : list aidx) (out : list (option tree)) : res (list (option tree)) :=
   match ps, starts with
   | p :: ps', off :: starts' =>
       let mask := map (fun i => i =? ind) inds in
       out' <- (if existsb (fun b => b) mask
-               then sub <- part_get p (AList (map (fun z => z - off) (select mask head)) :: tail) ;;
+               then sub <- part_get dt p (AList (map (fun z => z - off) (select mask head)) :: tail) ;;
                     scatter out inds ind (children (nd_body (a_nd sub)))
                else Ok out) ;;
-      scatter_parts ps' (ind + 1) starts' head inds tail out'
+      scatter_parts dt ps' (ind + 1) starts' head inds tail out'
   | _, _ => Ok out
   end.
 
 (* one chunk of the slice branch: indexer [ind] asked for slice(chunk_start, chunk_stop, stride) *)
-Definition slice_chunk (ps : list cpart) (starts : list Z) (tail : list aidx) (shape_tails : list Z)
+Definition slice_chunk (dt : Z) (ps : list cpart) (starts : list Z) (tail : list aidx) (shape_tails : list Z)
            (start stop stride : Z) (ind : Z) : res arr :=
   p <- py_nth ps ind ;; off <- py_nth starts ind ;;
   let cs := if off <=? start then start - off else (start - off) mod stride in
-  sub <- part_get p (ASlice (Some cs) (Some (stop - off)) (Some stride) :: tail) ;;
+  sub <- part_get dt p (ASlice (Some cs) (Some (stop - off)) (Some stride) :: tail) ;;
   reshape_chunk shape_tails sub.
 
 (* one chunk of the mask branch: the part of the mask that covers indexer (p, off, len) *)
-Definition mask_chunk (m : list bool) (tail : list aidx) (shape_tails : list Z) (q : cpart * Z * Z) : res arr :=
-  sub <- part_get (fst (fst q)) (AMask (zslice m (snd (fst q)) (snd (fst q) + snd q)) :: tail) ;;
+Definition mask_chunk (dt : Z) (m : list bool) (tail : list aidx) (shape_tails : list Z) (q : cpart * Z * Z) : res arr :=
+  sub <- part_get dt (fst (fst q)) (AMask (zslice m (snd (fst q)) (snd (fst q) + snd q)) :: tail) ;;
   reshape_chunk shape_tails sub.
 
 Definition c_head (ps : list cpart) (dt total : Z) (S : list sel) (head : aidx) (tail : list aidx) : res arr :=
@@ -144,27 +155,27 @@ Definition c_head (ps : list cpart) (dt total : Z) (S : list sel) (head : aidx) 
       if (0 <=? z') && (z' <? total) then
         let ind := find_indexer starts z' in
         p <- py_nth ps ind ;; off <- py_nth starts ind ;;
-        part_get p (AInt (z' - off) :: tail)
+        part_get dt p (AInt (z' - off) :: tail)
       else Err
   | ASlice a b cc =>
       match slice_indices total a b cc with
       | None => Err
       | Some (start, stop, stride) =>
           if stride <? 0 then Err else
-          chunks <- mapM (slice_chunk ps starts tail shape_tails start stop stride)
+          chunks <- mapM (slice_chunk dt ps starts tail shape_tails start stop stride)
                          (py_range (find_indexer starts start) (find_indexer starts stop + 1) 1) ;;
           concat_chunks dt shape_tails chunks
       end
   | AMask m =>
       if zlen m =? total then
-        chunks <- mapM (mask_chunk m tail shape_tails) (combine (combine ps starts) lens) ;;
+        chunks <- mapM (mask_chunk dt m tail shape_tails) (combine (combine ps starts) lens) ;;
         concat_chunks dt shape_tails chunks
       else Err
   | AList l =>
       _ <- mapM (wrap_res total) l ;;                           (* final_shape: np.arange(total)[l] *)
       let l' := map (fun z => if z <? 0 then z + total else z) l in
       let inds := map (find_indexer starts) l' in
-      rows <- scatter_parts ps 0 starts l' inds tail (repeat None (List.length l)) ;;
+      rows <- scatter_parts dt ps 0 starts l' inds tail (repeat None (List.length l)) ;;
       rows' <- mapM (fun o => match o with Some t => Ok t | None => Err end) rows ;;
       Ok (mk_arr dt (mk_nd (zlen l :: shape_tails) (Node rows')))
   end.
@@ -184,25 +195,34 @@ Definition c_getitem (c : concat) (ixs : list aidx) : res arr :=
 
 (* ---------------------------------------------------------------- SPEC *)
 
-(* concatenation (first axis) of the parts' first-stage results, indexed once, transformed *)
+(* np.concatenate (first axis) of the parts' first-stage results, indexed once, transformed.
+   Parts without rows contribute neither rows, tail shape nor dtype (convention of the indexer: they are dropped
+   at construction).  The dtype is numpy's promotion of the dtypes of the parts with rows ([promote_all]); the
+   values need no cast because every cast to a promoted dtype keeps the value (LazyDType.promote_cast_id). *)
 Definition spec_concat (raws : list craw) (ts : list tr) (ixs : list aidx) : res arr :=
   fulls <- mapM (fun r => oindex_keep (mk_nd (r_shape r) (r_ds r)) (r_keep r)) raws ;;
-  let ne := filter (fun a => negb (hd 0 (nd_shape a) =? 0)) fulls in
-  match (match ne with [] => firstn 1 fulls | _ => ne end) with
+  let fd := combine fulls (map r_dt raws) in
+  let ne := filter (fun q : nd * Z => negb (hd 0 (nd_shape (fst q)) =? 0)) fd in
+  match (match ne with [] => firstn 1 fd | _ => ne end) with
   | [] => Err
-  | a :: _ =>
+  | (a, d) :: rest =>
+      dt <- promote_all (d :: map snd rest) ;;
       let whole := mk_nd (zsum (map (fun a => hd 0 (nd_shape a)) fulls) :: tl (nd_shape a))
                          (cat (map nd_body fulls)) in
       r <- oindex whole ixs ;;
-      apply_transforms ts (mk_arr (match raws with r0 :: _ => r_dt r0 | [] => 0 end) r)
+      apply_transforms ts (mk_arr dt r)
   end.
 
 (* ---------------------------------------------------------------- wire *)
 
-(* part = (shape keep base): dataset = arange shape base (labels disjoint between parts) *)
+(* part = (shape keep base dtype): dataset = elements of that dtype with C-order labels arange shape base
+   (labels disjoint between parts); without a dtype the part has the common dtype dt *)
 Definition to_craw (dt : Z) (x : sx) : craw :=
   match x with
-  | L [shape; keep; I base] => mk_craw (to_Zs shape) (map to_aidx (to_list keep)) (arange (to_Zs shape) base) dt
+  | L [shape; keep; I base; I pdt] =>
+      mk_craw (to_Zs shape) (map to_aidx (to_list keep)) (tree_map (enc_val pdt) (arange (to_Zs shape) base)) pdt
+  | L [shape; keep; I base] =>
+      mk_craw (to_Zs shape) (map to_aidx (to_list keep)) (tree_map (enc_val dt) (arange (to_Zs shape) base)) dt
   | _ => mk_craw [] [] (Leaf 0) dt
   end.
 
